@@ -2,6 +2,7 @@ package main
 
 import (
 	"fmt"
+	"go/token"
 	"strings"
 
 	"golang.org/x/tools/go/ssa"
@@ -226,3 +227,120 @@ func ruleMergeIdemp(c *Ctx) {
 }
 
 var _ = strings.Contains
+
+// ---------------------------------------------------------------------------
+// R-MERGE-EVERY (C15, C16): Merge rewrites the live records of each listed segment into a new
+// segment with a higher id and replay applies segments in ascending id order. That only
+// preserves the order of effects if every listed segment is processed in turn: an iteration
+// of the per-segment loop that reaches the next segment must have removed the current one.
+// A segment that is skipped keeps its records at an id below records rewritten from older
+// segments, so after the merge (and after reopen) older operations are applied last.
+
+func ruleMergeEvery(c *Ctx) {
+	m := c.P.MustFunc("(*DB).Merge")
+	c.touch(m)
+	var opens []ssa.CallInstruction
+	calls(m, func(ci ssa.CallInstruction) {
+		if calleeIs(ci.Common(), modPath, "", "NewDataFile") {
+			opens = append(opens, ci)
+		}
+	})
+	if len(opens) != 1 {
+		c.undecided(fnName(m), "per-segment loop", "", fmt.Sprintf("expected one NewDataFile call in Merge, found %d", len(opens)))
+		return
+	}
+	open := opens[0]
+	isRemove := func(in ssa.Instruction) bool {
+		cc := callOf(in)
+		return cc != nil && cc.StaticCallee() != nil && cc.StaticCallee().String() == "os.Remove"
+	}
+	w := findPath(m, open, func(in ssa.Instruction) bool { return in == ssa.Instruction(open) }, isRemove, nil)
+	if w == nil {
+		// also make sure the open is inside a loop at all
+		inLoop := blockInCycle(open.Block())
+		c.check(inLoop, fnName(m), "every listed segment is rewritten and removed before the next one is opened", c.P.ipos(open), "", "the segment scan is not inside a loop over the listed segments")
+		return
+	}
+	c.bad(fnName(m), "every listed segment is rewritten and removed before the next one is opened", c.P.ipos(open),
+		"an iteration of the per-segment loop can reach the next segment without removing the current one: the skipped segment keeps its records at a lower id than records rewritten from older segments, so replay (and the in-memory index of the running process) applies older operations after newer ones", c.witnessOf(w)...)
+}
+
+// ---------------------------------------------------------------------------
+// R-MERGE-NEWER (C15): Merge drops a scanned record when the index holds a newer record for the
+// same key (its position is compared with the scan position). The lookup that supplies that
+// index record must be independent of liveness: if it hides a newest record that is a tombstone
+// or has expired, the superseded older record is taken for the newest one, rewritten as live
+// and resurrected.
+
+func ruleMergeNewer(c *Ctx) {
+	m := c.P.MustFunc("(*DB).Merge")
+	c.touch(m)
+	del, _ := constIntVal(c.P.Const("DataDeleteFlag"))
+	n := 0
+	seen := map[*ssa.Function]bool{}
+	instrs(m, func(in ssa.Instruction) {
+		b, ok := in.(*ssa.BinOp)
+		if !ok {
+			return
+		}
+		switch b.Op {
+		case token.GTR, token.LSS, token.GEQ, token.LEQ, token.EQL, token.NEQ:
+		default:
+			return
+		}
+		for _, side := range []ssa.Value{b.X, b.Y} {
+			if !(isFieldLoad(side, "Hint", "fileID") || isFieldLoad(side, "Hint", "dataPos")) {
+				continue
+			}
+			root, _ := splitPath(side)
+			var call *ssa.Call
+			switch r := root.(type) {
+			case *ssa.Extract:
+				call, _ = r.Tuple.(*ssa.Call)
+			case *ssa.Call:
+				call = r
+			}
+			if call == nil {
+				continue
+			}
+			cal := call.Call.StaticCallee()
+			if cal == nil || !c.P.inModule(cal) || seen[cal] {
+				continue
+			}
+			seen[cal] = true
+			n++
+			// liveness tests in the cone of the lookup (the B+ tree itself excluded below Find)
+			var offender ssa.Instruction
+			var where *ssa.Function
+			for _, g := range c.P.ModCone(cal) {
+				instrs(g, func(in ssa.Instruction) {
+					if offender != nil {
+						return
+					}
+					if cc := callOf(in); cc != nil && (calleeIs(cc, modPath, "", "IsExpired") || calleeIs(cc, modPath, "Record", "IsExpired")) {
+						offender, where = in, g
+						return
+					}
+					if bo, ok := in.(*ssa.BinOp); ok && (bo.Op == token.EQL || bo.Op == token.NEQ) {
+						for _, p := range [][2]ssa.Value{{bo.X, bo.Y}, {bo.Y, bo.X}} {
+							if isFieldLoad(p[0], "MetaData", "Flag") {
+								if k, ok := constInt(p[1]); ok && k == del {
+									offender, where = in, g
+								}
+							}
+						}
+					}
+				})
+			}
+			c.touch(cal)
+			if offender != nil {
+				c.bad(fnName(m), "the newer-record lookup ("+fnName(cal)+") is independent of liveness", c.P.ipos(offender),
+					"the index lookup that Merge uses to recognise superseded records tests tombstones or expiry (in "+fnName(where)+"): when the newest record of a key is deleted or expired the lookup reports nothing, the older record is taken for the newest, rewritten with a fresh committed transaction id and comes back to life after the merge")
+			} else {
+				c.ok(fnName(m), "the newer-record lookup ("+fnName(cal)+") is independent of liveness", c.P.ipos(call), "")
+			}
+		}
+	})
+	c.Sites += n
+	c.minInstances("index lookups compared with the scan position in Merge", n, 1)
+}
